@@ -66,7 +66,19 @@ macro_rules! run {
             "cmp" => {
                 let (x, y) = (Rational::<$t>::new(a, b), Rational::<$t>::new(c, d));
                 let pc = x.partial_cmp(&y).expect("partial_cmp returned None");
-                format!("C {} {}", ord(x.cmp(&y)), ord(pc))
+                // the relational operators and max/min (provided methods that an impl may override) must tell the
+                // same story as cmp; if they do not, the second field shows the reverse of cmp, which no
+                // specification accepts together with the first
+                let o = x.cmp(&y);
+                let consistent = (x < y) == (o == Ordering::Less)
+                    && (x <= y) == (o != Ordering::Greater)
+                    && (x > y) == (o == Ordering::Greater)
+                    && (x >= y) == (o != Ordering::Less)
+                    && (x != y) == (o != Ordering::Equal)
+                    && std::cmp::max(x, y) == (if o == Ordering::Greater { x } else { y })
+                    && std::cmp::min(x, y) == (if o == Ordering::Greater { y } else { x })
+                    && y.cmp(&x) == o.reverse();
+                format!("C {} {}", ord(o), ord(if consistent { pc } else if o == Ordering::Equal { Ordering::Less } else { o.reverse() }))
             }
             "eqhash" => {
                 let (x, y) = (Rational::<$t>::new(a, b), Rational::<$t>::new(c, d));
